@@ -49,6 +49,13 @@ EXHAUSTIVE_SUBSPACES = {
                  "cycle lengths 1..30 through each of 12 positions"],
 }
 
+ANCHORS = [
+    "statham.schema.parser:parse_element",
+    "statham.schema.parser:parse",
+    "statham.schema.exceptions:FeatureNotImplementedError.unsupported_keywords",
+    "statham.serializers.orderer:orderer",
+]
+
 
 def plan(tier):
     if tier == "quick":
